@@ -8,6 +8,10 @@
 3. spec -> code, progress: every loaded state of the state machine emitted by TLC is imposed on a real
    StatusMonitor (real CheckStatus closure, real Controller.get_stage_status) through a stub controller and
    Status.totalProgress() is compared with the spec's Total.
+4. loops: the same on real packages in which one stage hosts a DoWhile loop ($import of a DoWhile document; 2 plain
+   components + one looped component per iteration; iterations are instantiated by the real
+   Controller._instantiate_next_dowhile_iteration): the controller at every position (before / in / past the loop's stage, at
+   the end, restarted past it), quiet (check_progress) and with a controller action during CheckStatus (check_interleavings).
 """
 import json
 import os
@@ -19,6 +23,7 @@ from .. import tlc
 
 PID = "C20"
 UNIT = 10000.0
+DEN = 12            # Den of Progress.tla: stage progress in twelfths, totals in 1/(DEN*UNIT)
 MISSING, MALFORMED = 999991, 999992
 
 GRID_Q = "GridPos = {0, 9, 10, 1000, 2500, 3330, 3333, 3334, 3340, 4991, 4996, 5000, 5004, 5009, 7500, 10000, 10009, 15000}\n  GridNeg = {10, 5000}"
@@ -39,8 +44,25 @@ def render_weight(v):
     return float("%s%d.%04d" % ("-" if v < 0 else "", abs(v) // 10000, abs(v) % 10000))
 
 
-def flowir_for(n, given):
-    comps = [{"name": "c%dk%d" % (i, k), "stage": i, "command": {"executable": "echo", "arguments": "x"}} for i in range(n) for k in range(4)]
+DOWHILE = {"type": "DoWhile", "inputBindings": {}, "loopBindings": {}, "condition": "loop/iteration.next:output",
+           "components": [{"name": "loop", "command": {"executable": "echo", "arguments": "x"}}]}
+
+
+def loop_stage(iters):
+    """index (from 0) of the stage that hosts the loop, None without a loop"""
+    pos = [i for i, k in enumerate(iters or []) if k > 0]
+    if len(pos) > 1:
+        raise MachineryError("Progress.tla emitted a state with more than one loop: %s" % (iters,))
+    return pos[0] if pos else None
+
+
+def flowir_for(n, given, loop=None):
+    """4 plain components per stage; the stage hosting the loop: 2 plain components and the $import of the DoWhile document"""
+    comps = []
+    for i in range(n):
+        if i == loop:
+            comps.append({"name": "looper", "stage": i, "$import": "dowhile.yaml", "bindings": {}})
+        comps += [{"name": "c%dk%d" % (i, k), "stage": i, "command": {"executable": "echo", "arguments": "x"}} for k in range(2 if i == loop else 4)]
     status = {}
     for i, v in enumerate(given):
         if v == MISSING:
@@ -146,11 +168,20 @@ class FakeStatusDB:
         pass
 
 
+def build_experiment(n, given, loop, scratch):
+    import yaml
+    from .. import realenv
+    extra = {"conf/dowhile.yaml": yaml.safe_dump(DOWHILE, sort_keys=False)} if loop is not None else None
+    return realenv.experiment_from_flowir(flowir_for(n, list(given), loop), scratch, extra_files=extra)
+
+
 class StubController:
     """Drives the REAL experiment.runtime.control.Controller (never run()): the model state is imposed on the real
     ComponentState / comp_done / currentStage, and everything StatusMonitor.CheckStatus asks - stage(), stageState(),
     get_stages_in_transit(), get_stages_finished(), get_stage_status() - is answered by the real Controller methods.
-    Every such call is a boundary at which another controller action may happen (unless the monitor holds comp_lock)."""
+    Every such call is a boundary at which another controller action may happen (unless the monitor holds comp_lock).
+    A loop unrolls through the real Controller._instantiate_next_dowhile_iteration (iterations cannot be taken back: the
+    callers impose the states of an experiment in the order of their number of iterations)."""
 
     def __init__(self, exp, Controller, codes):
         import experiment.runtime.workflow as workflow
@@ -177,16 +208,46 @@ class StubController:
         self.injected = False
         self.n = len(exp._stages)
         self.st, self.prog, self.start = None, None, None
+        self.placeholder_state0 = {p: d.get('state') for p, d in wg._placeholders.items()}
+        self.loop_docs = dict((wg._documents or {}).get("DoWhile", {}))
+        if len(self.loop_docs) > 1:
+            raise MachineryError("more than one DoWhile document in a C20 package")
+        self.iterations = 1 if self.loop_docs else 0
+
+    def ensure_iterations(self, k):
+        """the loop has unrolled k times (the first iteration exists from the start)"""
+        if k < self.iterations or (k > 0 and not self.loop_docs):
+            raise MachineryError("cannot go back to %d iteration(s) of the loop (%d instantiated)" % (k, self.iterations))
+        while self.iterations < k:
+            c = self.real
+            meta = list(self.loop_docs.values())[0]
+            known = set(id(x) for x in c._instantiated_components)
+            # as the other ComponentState objects of this harness: no engine (the controller creates engines for the stages
+            # it has not skipped)
+            c._starting_index = 10 ** 6
+            c._instantiate_next_dowhile_iteration(meta)
+            c._starting_index = None
+            new = [x for x in c._instantiated_components if id(x) not in known]
+            if len(new) != 1:
+                raise MachineryError("an iteration of the loop instantiated %d components" % len(new))
+            for comp in new:
+                self.comps.append(comp)
+                self.by_stage[comp.stageIndex].append(comp)
+                self.by_stage[comp.stageIndex].sort(key=lambda c_: c_.specification.reference)
+            self.iterations += 1
 
     # -- imposing the model state on the real objects --
     def _finish(self, comp):
         comp.controllerState = self.codes.FINISHED_STATE
         self.real.comp_done.add(comp.specification.reference)
 
-    def set_state(self, st, prog, start=1):
+    def set_state(self, st, prog, start=1, iters=None):
         c = self.real
         self.st, self.prog, self.start = list(st), list(prog), start
+        self.ensure_iterations(max(iters) if iters else 0)
         c.comp_done.clear()
+        for p, v in self.placeholder_state0.items():
+            self.exp.experimentGraph._placeholders[p]['state'] = v
         c.currentStage = None
         c._starting_index = None
         for comp in self.comps:
@@ -256,15 +317,31 @@ class StubController:
         return ""
 
 
+def progress_key(s, loop):
+    """class of a state in which the quiet CheckStatus is wrong: where the controller is relative to the loop's stage"""
+    if loop is None:
+        return "progress:total-mismatch"
+    if s.get("start", 1) - 1 > loop:
+        return "progress:loop-stage-skipped-by-restart"
+    st = s["st"][loop]
+    if st == "pending":
+        return "progress:loop-stage-ahead"
+    if st == "active":
+        return "progress:loop-stage-current"
+    return "progress:controller-past-loop-stage"
+
+
 def check_progress(chk, states, scratch):
-    from .. import realenv
+    nloop = [0]
     import experiment.runtime.output as output
     import experiment.runtime.monitor
     import experiment.runtime.control as control
     import experiment.model.codes as codes
     groups = {}
     for s in states:
-        groups.setdefault((s["n"], tuple(s["given"])), []).append(s)
+        if s.get("den", DEN) != DEN:
+            raise MachineryError("Progress.tla counts stage progress in 1/%s, the driver in 1/%d" % (s.get("den"), DEN))
+        groups.setdefault((s["n"], tuple(s["given"]), loop_stage(s.get("iters"))), []).append(s)
     captured = {}
 
     def fake_create_monitor(interval, fn, cancelEvent=None, name=None, **kw):
@@ -273,8 +350,10 @@ def check_progress(chk, states, scratch):
     orig = experiment.runtime.monitor.CreateMonitor
     experiment.runtime.monitor.CreateMonitor = fake_create_monitor
     try:
-        for (n, given), sts in sorted(groups.items()):
-            exp = realenv.experiment_from_flowir(flowir_for(n, list(given)), scratch)
+        for (n, given, loop), sts in sorted(groups.items(), key=lambda kv: (kv[0][0], kv[0][1], -1 if kv[0][2] is None else kv[0][2])):
+            # iterations of a loop cannot be taken back: the states with fewer iterations first (stable: TLC's order otherwise)
+            sts = sorted(sts, key=lambda s_: max(s_.get("iters") or [0]))
+            exp = build_experiment(n, given, loop, scratch)
             mon = output.StatusMonitor(exp, report_components=False)
             weights = [float(x) for x in mon.stageWeights]
             specw = [x / UNIT for x in sts[0]["w"]]
@@ -286,24 +365,27 @@ def check_progress(chk, states, scratch):
             mon.run(ctrl)
             fn = captured["fn"]
             for s in sts:
-                ctrl.set_state(s["st"], s["prog"], s.get("start", 1))
-                if all(x == "finished" for x in s["st"]):
-                    # the verdict at the end: the current stage is the last one and counts as finished
-                    pass
+                ctrl.set_state(s["st"], s["prog"], s.get("start", 1), s.get("iters"))
                 fn(False)
                 got = float(exp.statusFile.totalProgress())
-                want = s["total"] / (4 * UNIT)
-                chk.evaluated(("p", n, given, tuple(s["st"]), tuple(s["prog"])))
+                want = s["total"] / (DEN * UNIT)
+                chk.evaluated(("p", n, given, tuple(s["st"]), tuple(s["prog"]), tuple(s.get("iters") or ())))
                 bad = []
                 if abs(got - want) > 1e-9:
                     bad.append("total progress %r, specification %r" % (got, want))
                 if got < -1e-9 or got > 1 + 1e-9:
                     bad.append("total progress %r outside [0,1]" % got)
+                if all(x == "finished" for x in s["st"]) and abs(got - 1.0) > 1e-9:
+                    bad.append("every stage has completed, total progress %r" % got)
                 if bad:
-                    chk.violation("progress:total-mismatch", "weights %s state %s prog %s: %s" % (weights, s["st"], s["prog"], "; ".join(bad)),
-                                  {"kind": "progress", "state": s})
+                    chk.violation(progress_key(s, loop), "weights %s%s state %s prog %s: %s" % (
+                        weights, "" if loop is None else " (stage %d hosts a loop, iterations per stage %s)" % (loop, s["iters"]),
+                        s["st"], s["prog"], "; ".join(bad)), {"kind": "progress", "state": s})
             chk.trace_validated(1)
-            chk.sample({"weights": weights, "states_checked": len(sts), "last": sts[-1]}, limit=5)
+            if loop is not None:
+                chk.cov["loop_states_checked"] = chk.cov.get("loop_states_checked", 0) + len(sts)
+                nloop[0] += 1
+            chk.sample({"weights": weights, "loop_stage": loop, "states_checked": len(sts), "last": sts[-1]}, limit=5 if loop is None or nloop[0] > 1 else 100)
             import shutil
             shutil.rmtree(exp.instanceDirectory.location, ignore_errors=True)
     finally:
@@ -315,7 +397,6 @@ def check_interleavings(chk, reports, scratch):
     and every controller action that may happen meanwhile, at every point where the monitor calls into the controller
     without holding its lock, the value the REAL CheckStatus writes must be one the specification allows for that
     (state, action): the in-transit / finished snapshot is atomic, so no stage is counted twice."""
-    from .. import realenv
     import experiment.runtime.output as output
     import experiment.runtime.monitor
     import experiment.runtime.control as control
@@ -323,11 +404,13 @@ def check_interleavings(chk, reports, scratch):
     import shutil
     allowed = {}
     for r in reports:
-        key = (r["n"], tuple(r["given"]), tuple(r["st0"]), tuple(r["prog0"]), r.get("start", 1))
+        if r.get("den", DEN) != DEN:
+            raise MachineryError("Progress.tla counts stage progress in 1/%s, the driver in 1/%d" % (r.get("den"), DEN))
+        key = (r["n"], tuple(r["given"]), tuple(r["st0"]), tuple(r["prog0"]), r.get("start", 1), tuple(r.get("iters0") or [0] * r["n"]))
         allowed.setdefault(key, {}).setdefault((r["act"], r["arg"]), set()).add(r["reported"])
     groups = {}
     for key in allowed:
-        groups.setdefault(key[:2], []).append(key)
+        groups.setdefault(key[:2] + (loop_stage(key[5]),), []).append(key)
     captured = {}
 
     def fake_create_monitor(interval, fn, cancelEvent=None, name=None, **kw):
@@ -337,42 +420,45 @@ def check_interleavings(chk, reports, scratch):
     experiment.runtime.monitor.CreateMonitor = fake_create_monitor
     runs = 0
     try:
-        for (n, given), keys in sorted(groups.items()):
-            exp = realenv.experiment_from_flowir(flowir_for(n, list(given)), scratch)
+        for (n, given, loop), keys in sorted(groups.items(), key=lambda kv: (kv[0][0], kv[0][1], -1 if kv[0][2] is None else kv[0][2])):
+            exp = build_experiment(n, given, loop, scratch)
             mon = output.StatusMonitor(exp, report_components=False)
             ctrl = StubController(exp, control.Controller, codes)
             mon.run(ctrl)
             fn = captured["fn"]
-            for key in sorted(keys):
-                st0, prog0, start0 = list(key[2]), list(key[3]), key[4]
+            lp = "" if loop is None else "loop:"
+            # iterations of a loop cannot be taken back: the begin states with fewer iterations first
+            for key in sorted(keys, key=lambda k_: (max(k_[5]), k_)):
+                st0, prog0, start0, iters0 = list(key[2]), list(key[3]), key[4], list(key[5])
                 # dry run: how many calls into the controller does one CheckStatus make from this state?
-                ctrl.set_state(st0, prog0, start0); ctrl.nb = 0; ctrl.inject_at = None; ctrl.injected = False
+                ctrl.set_state(st0, prog0, start0, iters0); ctrl.nb = 0; ctrl.inject_at = None; ctrl.injected = False
                 fn(False)
                 nb = ctrl.nb
-                base = int(round(float(exp.statusFile.totalProgress()) * 4 * UNIT))
+                base = int(round(float(exp.statusFile.totalProgress()) * DEN * UNIT))
                 if base not in allowed[key].get(("none", 0), set()):
-                    chk.violation("interleaving:quiet-check-differs", "n=%d weights=%s start=%d state=%s prog=%s: CheckStatus reports %d/40000, specification %s" % (
-                        n, list(given), start0, st0, prog0, base, sorted(allowed[key].get(("none", 0), []))), {"kind": "inter", "key": key})
+                    chk.violation("interleaving:%squiet-check-differs" % lp, "n=%d weights=%s start=%d state=%s prog=%s iterations=%s: CheckStatus reports %d/%d, specification %s" % (
+                        n, list(given), start0, st0, prog0, iters0, base, DEN * UNIT, sorted(allowed[key].get(("none", 0), []))), {"kind": "inter", "key": key})
                 for (act, arg), vals in sorted(allowed[key].items()):
                     if act == "none":
                         continue
                     ok_vals = vals | allowed[key].get(("none", 0), set())
                     for b in range(2, nb + 2):
-                        ctrl.set_state(st0, prog0, start0); ctrl.nb = 0; ctrl.inject_at = (b, act, arg); ctrl.injected = False
+                        ctrl.set_state(st0, prog0, start0, iters0); ctrl.nb = 0; ctrl.inject_at = (b, act, arg); ctrl.injected = False
                         fn(False)
                         runs += 1
-                        got = int(round(float(exp.statusFile.totalProgress()) * 4 * UNIT))
+                        got = int(round(float(exp.statusFile.totalProgress()) * DEN * UNIT))
                         chk.evaluated(("i", key, act, arg, b))
-                        if got not in ok_vals or got > 4 * UNIT or got < 0:
-                            chk.violation("interleaving:stage-counted-inconsistently", "n=%d weights=%s start=%d: check begins in state=%s prog=%s, the controller does %s(%d) "
+                        if got not in ok_vals or got > DEN * UNIT or got < 0:
+                            chk.violation("interleaving:%sstage-counted-inconsistently" % lp, "n=%d weights=%s start=%d%s: check begins in state=%s prog=%s, the controller does %s(%d) "
                                           "at the monitor's call #%d: CheckStatus reports %.4f, the specification allows %s" % (
-                                              n, list(given), start0, st0, prog0, act, arg, b, got / (4 * UNIT), sorted(v / (4 * UNIT) for v in ok_vals)),
-                                          {"kind": "inter", "n": n, "given": list(given), "st0": st0, "prog0": prog0, "act": act, "arg": arg, "b": b})
+                                              n, list(given), start0, "" if loop is None else " (stage %d hosts a loop, iterations %s)" % (loop, iters0),
+                                              st0, prog0, act, arg, b, got / (DEN * UNIT), sorted(v / (DEN * UNIT) for v in ok_vals)),
+                                          {"kind": "inter", "n": n, "given": list(given), "st0": st0, "prog0": prog0, "iters0": iters0, "act": act, "arg": arg, "b": b})
             chk.trace_validated(1)
             shutil.rmtree(exp.instanceDirectory.location, ignore_errors=True)
     finally:
         experiment.runtime.monitor.CreateMonitor = orig
-    chk.cov["monitor_interleavings_executed"] = runs
+    chk.cov["monitor_interleavings_executed"] = chk.cov.get("monitor_interleavings_executed", 0) + runs
     chk.sample({"interleaving_case": {"n": n, "given": list(given), "begin_state": st0, "action": [act, arg], "allowed": sorted(ok_vals)}}, limit=6)
 
 
@@ -386,7 +472,7 @@ def run(tier):
     common_w = "CONSTANTS\n  MinStages = 1\n  MaxStages = %d\n  %s\n" % (ms, grid)
     inv = "INVARIANT TypeOK\nINVARIANT WeightsNonNegative\nINVARIANT WeightsSumToOne\nINVARIANT GivenPreserved\n"
     # 1a. Normalise on the weight grid
-    c1 = _cfg(os.path.join(gen, "Progress_weights_%s.cfg" % tier), common_w + "  UseSpecial = TRUE\n  Restarts = FALSE\n  Emit = FALSE\nINIT Init\nNEXT Load\n" + inv + "CHECK_DEADLOCK FALSE\n")
+    c1 = _cfg(os.path.join(gen, "Progress_weights_%s.cfg" % tier), common_w + "  UseSpecial = TRUE\n  Restarts = FALSE\n  LoopStages = {}\n  MaxIter = 0\n  Emit = FALSE\nINIT Init\nNEXT Load\n" + inv + "CHECK_DEADLOCK FALSE\n")
     r = tlc.run_tlc("Progress", c1, timeout=1500)
     if not r["ok"]:
         raise MachineryError("Progress.tla: invariant %s fails on the model:\n%s" % (r["violated"], r["out"][-2000:]))
@@ -394,7 +480,7 @@ def run(tier):
     # 1b. progress state machine of the controller alone (no CheckStatus in progress)
     g2 = "GridPos = {0, 2500, 3333, 3334, 5000, 7500, 10000}\n  GridNeg = {}" if not thorough else \
          "GridPos = {0, 10, 2500, 3330, 3333, 3334, 3340, 5000, 7500, 10000}\n  GridNeg = {}"
-    c2 = _cfg(os.path.join(gen, "Progress_mc_%s.cfg" % tier), "CONSTANTS\n  MinStages = 1\n  MaxStages = 3\n  %s\n  UseSpecial = TRUE\n  Restarts = TRUE\n  Emit = FALSE\nSPECIFICATION SpecNoMon\n%s"
+    c2 = _cfg(os.path.join(gen, "Progress_mc_%s.cfg" % tier), "CONSTANTS\n  MinStages = 1\n  MaxStages = 3\n  %s\n  UseSpecial = TRUE\n  Restarts = TRUE\n  LoopStages = {}\n  MaxIter = 0\n  Emit = FALSE\nSPECIFICATION SpecNoMon\n%s"
               "INVARIANT TotalInRange\nINVARIANT TotalCompleteAtEnd\nPROPERTY Monotone\nCHECK_DEADLOCK FALSE\n" % (g2, inv))
     r = tlc.run_tlc("Progress", c2, timeout=1500, coverage=True)
     if not r["ok"]:
@@ -405,7 +491,7 @@ def run(tier):
     chk.add_tlc(r)
     # 1c. CheckStatus concurrent with the controller: the reported value stays a proper fraction
     g3 = "GridPos = {0, 2500, 5000, 7500, 10000}\n  GridNeg = {}"
-    c2b = _cfg(os.path.join(gen, "Progress_mon_%s.cfg" % tier), "CONSTANTS\n  MinStages = 1\n  MaxStages = %d\n  %s\n  UseSpecial = TRUE\n  Restarts = TRUE\n  Emit = FALSE\nSPECIFICATION Spec\n%s"
+    c2b = _cfg(os.path.join(gen, "Progress_mon_%s.cfg" % tier), "CONSTANTS\n  MinStages = 1\n  MaxStages = %d\n  %s\n  UseSpecial = TRUE\n  Restarts = TRUE\n  LoopStages = {}\n  MaxIter = 0\n  Emit = FALSE\nSPECIFICATION Spec\n%s"
                "INVARIANT ReportedInRange\nCHECK_DEADLOCK FALSE\n" % (2, g3 if not thorough else g2, inv))
     r = tlc.run_tlc("Progress", c2b, timeout=1500, coverage=True)
     if not r["ok"]:
@@ -415,7 +501,7 @@ def run(tier):
             raise MachineryError("action %s of Progress.tla never taken (vacuous run): %s" % (act, r["coverage"]))
     chk.add_tlc(r)
     # 2. weights, spec -> code
-    c3 = _cfg(os.path.join(gen, "Progress_emit_%s.cfg" % tier), "CONSTANTS\n  MinStages = 1\n  MaxStages = 3\n  %s\n  UseSpecial = TRUE\n  Restarts = FALSE\n  Emit = TRUE\nINIT Init\nNEXT Load\nINVARIANT EmitCase\nCHECK_DEADLOCK FALSE\n" % GRID_Q)
+    c3 = _cfg(os.path.join(gen, "Progress_emit_%s.cfg" % tier), "CONSTANTS\n  MinStages = 1\n  MaxStages = 3\n  %s\n  UseSpecial = TRUE\n  Restarts = FALSE\n  LoopStages = {}\n  MaxIter = 0\n  Emit = TRUE\nINIT Init\nNEXT Load\nINVARIANT EmitCase\nCHECK_DEADLOCK FALSE\n" % GRID_Q)
     r = tlc.run_tlc("Progress", c3, workers=1, timeout=900)
     cases = r["cases"]
     if len(cases) < 1000:
@@ -424,19 +510,19 @@ def run(tier):
     from ..realenv import FL
     check_weights(chk, cases, FL)
     if thorough:
-        c3b = _cfg(os.path.join(gen, "Progress_emit_many.cfg"), "CONSTANTS\n  MinStages = 1\n  MaxStages = 8\n  GridPos = {0, 1250, 10000}\n  GridNeg = {}\n  UseSpecial = TRUE\n  Restarts = FALSE\n  Emit = TRUE\nINIT Init\nNEXT Load\nINVARIANT EmitCase\nCHECK_DEADLOCK FALSE\n")
+        c3b = _cfg(os.path.join(gen, "Progress_emit_many.cfg"), "CONSTANTS\n  MinStages = 1\n  MaxStages = 8\n  GridPos = {0, 1250, 10000}\n  GridNeg = {}\n  UseSpecial = TRUE\n  Restarts = FALSE\n  LoopStages = {}\n  MaxIter = 0\n  Emit = TRUE\nINIT Init\nNEXT Load\nINVARIANT EmitCase\nCHECK_DEADLOCK FALSE\n")
         r = tlc.run_tlc("Progress", c3b, workers=1, timeout=900)
         check_weights(chk, r["cases"], FL)
     # 3. progress, spec -> code
     g4 = "GridPos = {0, 2500, 5000, 7500, 10000}\n  GridNeg = {}" if not thorough else "GridPos = {0, 2500, 3333, 3334, 5000, 7500, 10000}\n  GridNeg = {}"
-    c4 = _cfg(os.path.join(gen, "Progress_states_%s.cfg" % tier), "CONSTANTS\n  MinStages = 1\n  MaxStages = %d\n  %s\n  UseSpecial = TRUE\n  Restarts = TRUE\n  Emit = TRUE\nINIT Init\nNEXT NextNoMon\nINVARIANT EmitState\nCHECK_DEADLOCK FALSE\n" % (2 if not thorough else 3, g4))
+    c4 = _cfg(os.path.join(gen, "Progress_states_%s.cfg" % tier), "CONSTANTS\n  MinStages = 1\n  MaxStages = %d\n  %s\n  UseSpecial = TRUE\n  Restarts = TRUE\n  LoopStages = {}\n  MaxIter = 0\n  Emit = TRUE\nINIT Init\nNEXT NextNoMon\nINVARIANT EmitState\nCHECK_DEADLOCK FALSE\n" % (2 if not thorough else 3, g4))
     r = tlc.run_tlc("Progress", c4, workers=1, timeout=1500)
     states = r["cases"]
     if len(states) < 100:
         raise MachineryError("TLC emitted only %d progress states" % len(states))
     check_progress(chk, states, chk.scratch)
     # 4. many stages (stage names 'stage10' < 'stage2' lexicographically): usable weight vectors only, distinct per position
-    c5 = _cfg(os.path.join(gen, "Progress_many_%s.cfg" % tier), "CONSTANTS\n  MinStages = 11\n  MaxStages = %d\n  GridPos = {500, 1500, 4000}\n  GridNeg = {}\n  UseSpecial = FALSE\n  Restarts = FALSE\n  Emit = TRUE\n"
+    c5 = _cfg(os.path.join(gen, "Progress_many_%s.cfg" % tier), "CONSTANTS\n  MinStages = 11\n  MaxStages = %d\n  GridPos = {500, 1500, 4000}\n  GridNeg = {}\n  UseSpecial = FALSE\n  Restarts = FALSE\n  LoopStages = {}\n  MaxIter = 0\n  Emit = TRUE\n"
               "INIT Init\nNEXT Load\nINVARIANT EmitUsable\nINVARIANT WeightsSumToOne\nINVARIANT GivenPreserved\nCHECK_DEADLOCK FALSE\n" % (12 if thorough else 11))
     r = tlc.run_tlc("Progress", c5, workers=8, timeout=1500)
     chk.add_tlc(r)
@@ -450,20 +536,59 @@ def run(tier):
     check_progress(chk, [dict(n=c["n"], given=c["given"], w=c["expected"], st=["active"] + ["pending"] * (c["n"] - 1),
                               prog=[0] * c["n"], total=0) for c in pick], chk.scratch)
     # 5. CheckStatus concurrent with the controller
-    c6 = _cfg(os.path.join(gen, "Progress_reports_%s.cfg" % tier), "CONSTANTS\n  MinStages = 2\n  MaxStages = %d\n  GridPos = {%s}\n  GridNeg = {}\n  UseSpecial = TRUE\n  Restarts = TRUE\n  Emit = TRUE\n"
+    c6 = _cfg(os.path.join(gen, "Progress_reports_%s.cfg" % tier), "CONSTANTS\n  MinStages = 2\n  MaxStages = %d\n  GridPos = {%s}\n  GridNeg = {}\n  UseSpecial = TRUE\n  Restarts = TRUE\n  LoopStages = {}\n  MaxIter = 0\n  Emit = TRUE\n"
               "SPECIFICATION Spec\nINVARIANT EmitReport\nINVARIANT ReportedInRange\nCHECK_DEADLOCK FALSE\n" % ((2, "2500, 7500") if not thorough else (3, "2500, 5000")))
     r = tlc.run_tlc("Progress", c6, workers=1, timeout=1500)
     chk.add_tlc(r)
     if len(r["cases"]) < 500:
         raise MachineryError("TLC emitted only %d CheckStatus reports" % len(r["cases"]))
     check_interleavings(chk, r["cases"], chk.scratch)
+    # 6. loops: one stage hosts a DoWhile loop (in 3 stages the first or the second one, in 2 stages either); only packages whose
+    #    weights are used as given.  6a: the controller alone - model checked, every state executed on the real code
+    lconst = ("CONSTANTS\n  MinStages = 2\n  MaxStages = %d\n  GridPos = {%s}\n  GridNeg = {}\n  UseSpecial = FALSE\n  Restarts = TRUE\n"
+              "  LoopStages = {%s}\n  MaxIter = 2\n  Emit = TRUE\n")
+    c7 = _cfg(os.path.join(gen, "Progress_loops_%s.cfg" % tier), lconst % ((3, "2500, 5000, 7500", "1, 2") if not thorough else (3, "2000, 3000, 5000, 7000", "1, 2, 3")) +
+              "SPECIFICATION SpecNoMon\n" + inv + "INVARIANT TotalInRange\nINVARIANT TotalCompleteAtEnd\nINVARIANT NeverBoth\nINVARIANT FinishedIsComplete\n"
+              "INVARIANT EmitState\nPROPERTY Monotone\nCONSTRAINT OnlyUsable\nCHECK_DEADLOCK FALSE\n")
+    r = tlc.run_tlc("Progress", c7, workers=1, timeout=1500, coverage=True)
+    if not r["ok"]:
+        raise MachineryError("Progress.tla (loops): %s fails on the model:\n%s" % (r["violated"], r["out"][-2000:]))
+    for act in ("Load", "Advance", "Iterate", "NextStage", "Finish"):
+        if not r["coverage"].get(act):
+            raise MachineryError("action %s of Progress.tla never taken with loops (vacuous run): %s" % (act, r["coverage"]))
+    chk.add_tlc(r)
+    lstates = [s_ for s_ in r["cases"] if "st" in s_]
+    past = [s_ for s_ in lstates if any(k > 0 and s_["st"][i] in ("transit", "finished") and i + 1 >= s_["start"] and s_["st"][i + 1:].count("active") == 1
+                                        for i, k in enumerate(s_["iters"]))]
+    ends = [s_ for s_ in lstates if all(x == "finished" for x in s_["st"])]
+    twice = [s_ for s_ in lstates if max(s_["iters"]) == 2]
+    if len(lstates) < 1000 or len(past) < 100 or len(ends) < 10 or len(twice) < 100:
+        raise MachineryError("TLC emitted only %d states with loops (%d with the controller past the loop's stage, %d at the end, %d with two iterations)" % (
+            len(lstates), len(past), len(ends), len(twice)))
+    chk.cov["loop_states"] = {"emitted": len(lstates), "controller_past_loop_stage": len(past), "at_the_end": len(ends), "two_iterations": len(twice)}
+    check_progress(chk, lstates, chk.scratch)
+    # 6b: CheckStatus concurrent with the controller; nothing beyond the first completed CheckStatus from every state
+    c8 = _cfg(os.path.join(gen, "Progress_loopreports_%s.cfg" % tier), lconst % ((2, "3000, 7000", "1, 2") if not thorough else (3, "2500, 5000, 7500", "1, 2")) +
+              "SPECIFICATION Spec\nINVARIANT TypeOK\nINVARIANT EmitReport\nINVARIANT ReportedInRange\nCONSTRAINT OnlyUsable\nCONSTRAINT FirstReport\nCHECK_DEADLOCK FALSE\n")
+    r = tlc.run_tlc("Progress", c8, workers=1, timeout=1500)
+    if not r["ok"]:
+        raise MachineryError("Progress.tla (loops): %s fails on the model:\n%s" % (r["violated"], r["out"][-2000:]))
+    chk.add_tlc(r)
+    lreports = [x for x in r["cases"] if "st0" in x]
+    if len(lreports) < 500 or not any(max(x["iters0"]) == 2 for x in lreports):
+        raise MachineryError("TLC emitted only %d CheckStatus reports with loops" % len(lreports))
+    check_interleavings(chk, lreports, chk.scratch)
     chk.cov["rule"] = ("weight cases: every assignment of the grid (ten-thousandths incl. negative, >1, truncation-sensitive values, missing, "
                        "malformed) to <=3 stages, emitted by TLC with the specified result; progress cases: every reachable state of the "
-                       "Progress.tla state machine for the small grid; distinct = distinct (given) vectors / (given, state) pairs")
+                       "Progress.tla state machine for the small grid; loops: every reachable state of the state machine with one stage hosting a DoWhile "
+                       "loop of 1-2 iterations (2-3 stages, restarts), on real packages with a $import-ed DoWhile document; "
+                       "distinct = distinct (given) vectors / (given, state) pairs")
     chk.cov["exhaustive"] = True
     chk.assumptions += ["weights outside the grid (more than 4 decimals) are not explored",
                         "the controller below StatusMonitor is a stub that reports the model state; Controller.get_stage_status is the real method",
-                        "TLC runs are exhaustive for the stated constants (MaxStages<=%d)" % ms]
+                        "TLC runs are exhaustive for the stated constants (MaxStages<=%d)" % ms,
+                        "loops: at most one stage hosts a loop, one looped component per iteration, at most 2 iterations; no iteration is "
+                        "instantiated while a CheckStatus is in progress; a restart finds the loop with one iteration"]
     return chk.finish()
 
 
